@@ -4,6 +4,7 @@ import (
 	"bytes"
 	"fmt"
 	"github.com/itchio/lake"
+	"github.com/itchio/lake/tlc"
 	"os"
 	"path/filepath"
 	"sort"
@@ -91,6 +92,31 @@ func c02Run(c lib.Case, env *lib.Env) lib.Result {
 		}
 		defer func() { lib.TargetPoolWrap = nil }()
 		res.Add("cases_over_stale_position_pools", 1)
+	}
+	if c.ID%4 == 2 || c.ID%8 == 7 {
+		// the old build's container lists its directories and links in another order than a directory walk does
+		// (children first, or any order: what a container read from a zip looks like); files keep their order
+		shuffle := c.ID%8 == 7
+		lib.OldContainerTweak = func(oc *tlc.Container) {
+			r := lib.NewRng(lib.Mix(s.PairSeed, 22))
+			for i := len(oc.Dirs) - 1; i > 0; i-- {
+				j := len(oc.Dirs) - 1 - i
+				if shuffle {
+					j = r.Intn(i + 1)
+				} else if j >= i {
+					break
+				}
+				oc.Dirs[i], oc.Dirs[j] = oc.Dirs[j], oc.Dirs[i]
+			}
+			if shuffle {
+				for i := len(oc.Symlinks) - 1; i > 0; i-- {
+					j := r.Intn(i + 1)
+					oc.Symlinks[i], oc.Symlinks[j] = oc.Symlinks[j], oc.Symlinks[i]
+				}
+			}
+		}
+		defer func() { lib.OldContainerTweak = nil }()
+		res.Add("cases_with_old_container_in_non_walk_order", 1)
 	}
 	oldDir, newDir := filepath.Join(env.Scratch, "old"), filepath.Join(env.Scratch, "new")
 	if err := pair.Old.Materialize(oldDir); err != nil {
